@@ -266,6 +266,75 @@ Theorem C12_lengths_http : forall max b, Z.of_nat (length b) <= max ->
 Proof. exact lengths_http. Qed.
 Print Assumptions C12_lengths_http.
 
+(* ---------------------------------------------------------------- handlers as repaired - *)
+
+(* UDP client: a request that does not fit one datagram is refused before it is framed; the
+   slice expression of conn.send can no longer panic *)
+Theorem C12_udp_transport_limit : forall i b,
+  (Z.of_nat (length b) <= 65499 ->
+     udp_transport UDP_BUFFER i b = TSent (udp_make_header (Z.of_nat (length b)) i ++ b)) /\
+  (65499 < Z.of_nat (length b) -> udp_transport UDP_BUFFER i b = TRefused) /\
+  udp_transport UDP_BUFFER i b <> TPanic.
+Proof. intros i b. split; [apply udp_transport_ok|split; [apply udp_transport_refused|apply udp_transport_never_panics]]. Qed.
+Print Assumptions C12_udp_transport_limit.
+
+(* UDP server answers of any size: exact at the caller, or an error frame — never cut *)
+Theorem C12_udp_reply_exact_or_error : forall buf i b,
+  length buf = UDP_BUFFER -> 0 <= i < 32768 ->
+  (Z.of_nat (length b) <= 65499 ->
+     snd (udp_step_fixed Client buf (udp_reply UDP_BUFFER i b)) = DDeliver i b) /\
+  (65499 < Z.of_nat (length b) ->
+     snd (udp_step_fixed Client buf (udp_reply UDP_BUFFER i b)) = DErrorFrame RESPONSE_TOO_LARGE).
+Proof. exact udp_reply_received. Qed.
+Print Assumptions C12_udp_reply_exact_or_error.
+
+(* the index a client frames for ANY value of its call counter is a plain (unflagged) index
+   that the peer reads back unchanged: 15 bits on UDP, 31 bits on socket *)
+Theorem C12_client_index_udp : forall counter length, 0 <= length < 65536 ->
+  udp_parse_header (udp_make_header length (client_index UDP_INDEX_MASK counter)) =
+  Some (length, client_index UDP_INDEX_MASK counter, true).
+Proof. exact udp_client_index_sound. Qed.
+Print Assumptions C12_client_index_udp.
+
+Theorem C12_client_index_socket : forall counter length, 0 <= length < 2147483648 ->
+  sock_parse_header (sock_make_header length (client_index SOCK_INDEX_MASK counter)) =
+  Some (length, client_index SOCK_INDEX_MASK counter, true).
+Proof. exact sock_client_index_sound. Qed.
+Print Assumptions C12_client_index_socket.
+
+(* ... and a 16-bit mask on UDP is not: the 32768th call is read as flagged index 0 *)
+Theorem C12_client_index_udp_wide_refuted :
+  exists counter, udp_parse_header (udp_make_header 0 (client_index 65535 counter)) = Some (0, 0, false) /\
+                  client_index 65535 counter = 32768.
+Proof. exact udp_client_index_wide_refuted. Qed.
+Print Assumptions C12_client_index_udp_wide_refuted.
+
+(* net/http as it reads now (limit reader of MaxRequestLength+1, errors refused): for every
+   MaxRequestLength, Content-Length or none: the service gets the body exactly, or nothing *)
+Theorem C12_http_limited_exact : forall max declared actual body,
+  0 <= max -> http_limited declared actual ->
+  http_server_recv_limited max declared actual = HDeliver body -> body = actual.
+Proof. exact http_limited_exact. Qed.
+Print Assumptions C12_http_limited_exact.
+
+Theorem C12_http_limited_delivers : forall max declared actual,
+  http_consistent declared actual = true -> declared <= max -> Z.of_nat (length actual) <= max ->
+  http_server_recv_limited max declared actual = HDeliver actual.
+Proof. exact http_limited_delivers. Qed.
+Print Assumptions C12_http_limited_delivers.
+
+Theorem C12_http_limited_refuses_oversize : forall max declared actual,
+  0 <= max -> max < Z.of_nat (length actual) -> declared <= 0 ->
+  http_server_recv_limited max declared actual = HTooLarge.
+Proof. exact http_limited_refuses_oversize. Qed.
+Print Assumptions C12_http_limited_refuses_oversize.
+
+(* the "+1" matters: a limit of exactly MaxRequestLength hands the service a prefix *)
+Theorem C12_http_limit_off_by_one_refuted :
+  http_server_recv_lim 2 2 (-1) [x61; x62; x63] = HDeliver [x61; x62].
+Proof. exact http_limit_off_by_one_refuted. Qed.
+Print Assumptions C12_http_limit_off_by_one_refuted.
+
 (* ---------------------------------------------------------------- witnesses ----------- *)
 
 From Coq Require Strings.String.
